@@ -326,12 +326,19 @@ def run_cases(domain, cases, timeout=10.0, jobs=None, fatal_event=None):
 
     def work(ch):
         w = Worker(domain, timeout)
+        streak = 0
         try:
             for i in ch:
                 r = w.run(cases[i])
                 if "fatal" in r:
                     fatal[i] = r["fatal"]
+                    # a library that hangs on case after case must not cost the full limit every time: after three
+                    # time-outs in a row this worker only waits 2 s (cases normally answer in milliseconds)
+                    streak = streak + 1 if r["fatal"] == "timeout" else 0
+                    if streak >= 3:
+                        w.timeout = min(w.timeout, 2.0)
                 else:
+                    streak = 0
                     results[i] = r["events"]
         finally:
             w.stop()
@@ -341,11 +348,13 @@ def run_cases(domain, cases, timeout=10.0, jobs=None, fatal_event=None):
     # A case that hung or died while a dozen workers (and possibly other checks) competed for the machine is run
     # once more on its own with a generous limit: only what hangs or dies again is data about the library; a slow
     # answer under load is not.  (At most 40 such re-runs: a library that hangs everywhere is reported as it is.)
-    retried = 0
+    retried, confirmed = 0, 0
     for i in sorted(fatal):
-        if retried < 40:
+        # (once two re-runs hung or died again the rest is taken as observed: re-running every case of a library that
+        # really hangs would take hours)
+        if retried < 40 and confirmed < 2:
             retried += 1
-            w = Worker(domain, max(60.0, timeout * 6))
+            w = Worker(domain, min(180.0, max(60.0, timeout * 3)))
             try:
                 r = w.run(cases[i])
             finally:
@@ -355,6 +364,7 @@ def run_cases(domain, cases, timeout=10.0, jobs=None, fatal_event=None):
                 log(f"[run] case {cases[i].get('case', i)} of '{domain}': {fatal[i]} under load, answered when re-run alone")
                 continue
             fatal[i] = r["fatal"]
+            confirmed += 1
         c = cases[i]
         results[i] = fatal_event(c, fatal[i]) if fatal_event else \
             [{"a": "Fatal", "case": c.get("case", i), "outcome": fatal[i]}]
